@@ -11,7 +11,8 @@ import (
 )
 
 // dirStates are the ways a condition can be supplied.
-var dirStates = []string{"absent", "lit-true", "lit-false", "var-true", "var-false", "default-true", "default-false"}
+// (default-*: a nullable variable with a default, left unset; nndefault-*: the same declared Boolean!)
+var dirStates = []string{"absent", "lit-true", "lit-false", "var-true", "var-false", "default-true", "default-false", "nndefault-true", "nndefault-false"}
 
 // Row is one row of the C09 table.
 type Row struct {
@@ -147,9 +148,13 @@ func applyRow(t *rapid.T, c *Case, row Row, op *hx.Op) {
 			c.Vars = append(c.Vars, hx.KV{Key: vn, V: hx.Bool(state == "var-true")})
 		default:
 			v = hx.VarV(vn)
-			d := hx.Bool(state == "default-true")
+			d := hx.Bool(strings.HasSuffix(state, "default-true"))
+			vt := hx.Named("Boolean")
+			if strings.HasPrefix(state, "nn") {
+				vt = vt.NN()
+			}
 			for _, o := range c.Doc.Ops {
-				o.Vars = append(o.Vars, &hx.VarDef{Name: vn, Type: hx.Named("Boolean"), Default: &d})
+				o.Vars = append(o.Vars, &hx.VarDef{Name: vn, Type: vt, Default: &d})
 				o.Anon = false
 			}
 		}
@@ -177,7 +182,7 @@ func applyRow(t *rapid.T, c *Case, row Row, op *hx.Op) {
 		// the same directive once more on the selection (ggql accepts that): every use counts,
 		// wherever it stands
 		name := rapid.SampledFrom([]string{"skip", "include"}).Draw(t, "repeatedName")
-		state := rapid.SampledFrom([]string{"lit-true", "lit-false", "var-true", "var-false", "default-true", "default-false"}).Draw(t, "repeatedState")
+		state := rapid.SampledFrom([]string{"lit-true", "lit-false", "var-true", "var-false", "default-true", "default-false", "nndefault-true", "nndefault-false"}).Draw(t, "repeatedState")
 		if du := mk(name, state); du != nil {
 			pos := rapid.IntRange(0, len(target.Dirs)).Draw(t, "repeatedPos")
 			ds := append([]hx.DirUse{}, target.Dirs[:pos]...)
@@ -452,8 +457,12 @@ func applyRowAt(c *Case, row Row, target *hx.Sel) {
 			c.Vars = append(c.Vars, hx.KV{Key: vn, V: hx.Bool(state == "var-true")})
 		default:
 			v = hx.VarV(vn)
-			d := hx.Bool(state == "default-true")
-			c.Doc.Ops[0].Vars = append(c.Doc.Ops[0].Vars, &hx.VarDef{Name: vn, Type: hx.Named("Boolean"), Default: &d})
+			d := hx.Bool(strings.HasSuffix(state, "default-true"))
+			vt := hx.Named("Boolean")
+			if strings.HasPrefix(state, "nn") {
+				vt = vt.NN()
+			}
+			c.Doc.Ops[0].Vars = append(c.Doc.Ops[0].Vars, &hx.VarDef{Name: vn, Type: vt, Default: &d})
 		}
 		return &hx.DirUse{Name: name, Args: []hx.KV{{Key: "if", V: v}}}
 	}
